@@ -71,7 +71,7 @@ Theorem C35_hit_calls_no_hook :
     lstep pickle unpickle bv p q g a = Some (q', g') ->
     hit_path (pc q) = true \/ (pc q = Locked /\ a = AChecked) ->
     pre_calls q' = pre_calls q /\ post_calls q' = post_calls q /\ execs q' = execs q /\
-    (hit_path (pc q') = true \/ pc q' = Locked \/ pc q' = Miss \/ pc q' = Done \/ pc q' = ExcHold).
+    (hit_path (pc q') = true \/ pc q' = Locked \/ pc q' = Miss \/ pc q' = Done \/ pc q' = ExcHold \/ pc q' = RelExc).
 Proof. exact hit_calls_no_hook. Qed.
 Print Assumptions C35_hit_calls_no_hook.
 
